@@ -69,3 +69,81 @@ Proof.
     + rewrite unref_list_F. text_auto.
     + rewrite on_term_mouse_F. cbn [v_events_asis fixed]. text_auto.
 Qed.
+
+(* ---- the discipline over a growing trace ---- *)
+Lemma echeck_app : forall l1 l2 g,
+  echeck g (l1 ++ l2) = match echeck g l1 with Some g1 => echeck g1 l2 | None => None end.
+Proof.
+  induction l1 as [|o l1 IH]; intros l2 g; cbn; [reflexivity|]. destruct (estep g o); [apply IH|reflexivity].
+Qed.
+
+Definition ill (h : heap) : Prop := echeck e0 (rev (tr h)) = None.
+
+Lemma ill_ext : forall h h' l, ill h -> tr h' = l ++ tr h -> ill h'.
+Proof. intros h h' l H E. unfold ill in *. rewrite E, rev_app_distr, echeck_app, H. reflexivity. Qed.
+
+(* ---- frames ---- *)
+(* [F]: the windows (by index) that dispatch frames hold, the one to be released first at the head *)
+Definition frames_of (g : eghost) (F : list nat) : Prop :=
+  (forall i x, nth_error g i = Some x -> e_fr x = Z.of_nat (count_occ Nat.eq_dec F i)) /\
+  (forall i, In i F -> (i < length g)%nat).
+(* the parent of a framed window is framed further out *)
+Definition FS (g : eghost) (F : list nat) : Prop :=
+  forall F1 i F2 x p, F = F1 ++ i :: F2 -> nth_error g i = Some x -> e_par x = Some p -> In p F2.
+
+Lemma FS_tail : forall g i F, FS g (i :: F) -> FS g F.
+Proof. intros g i F H F1 j F2 x p E. apply (H (i :: F1) j F2 x p). rewrite E. reflexivity. Qed.
+
+Lemma FS_desc : forall g F w j, FS g F -> edesc g w j -> forall F1 F2, F = F1 ++ j :: F2 -> In w F2.
+Proof.
+  intros g F w j HF Hd. induction Hd as [j x Hn Hp | j x p Hn Hp Hd IH]; intros F1 F2 E.
+  - eapply HF; eauto.
+  - pose proof (HF F1 j F2 x p E Hn Hp) as Hin. apply in_split in Hin. destruct Hin as (G1 & G2 & EG).
+    assert (In w G2) by (apply (IH (F1 ++ j :: G1) G2); rewrite E, EG, <- app_assoc; reflexivity).
+    rewrite EG. apply in_or_app. right. right. assumption.
+Qed.
+
+(* the ghost's parents only ever change to "none" for windows that exist; new windows are appended *)
+Definition par_shrinks (g g' : eghost) : Prop :=
+  (length g <= length g')%nat /\
+  forall i x', nth_error g' i = Some x' -> (i < length g)%nat ->
+    exists x, nth_error g i = Some x /\ (e_par x' = e_par x \/ e_par x' = None).
+
+Lemma FS_shrinks : forall g g' F, FS g F -> (forall i, In i F -> (i < length g)%nat) -> par_shrinks g g' -> FS g' F.
+Proof.
+  intros g g' F HF Hb [_ Hs] F1 i F2 x' p E Hn Hp.
+  assert (Hi : (i < length g)%nat) by (apply Hb; rewrite E; apply in_or_app; right; left; reflexivity).
+  destruct (Hs i x' Hn Hi) as (x & Hx & [Ep|Ep]); [|congruence].
+  apply (HF F1 i F2 x p E Hx). congruence.
+Qed.
+
+Lemma nth_edestroy_pass : forall t i w doomed k x',
+  nth_error (edestroy_pass t i w doomed) k = Some x' ->
+  exists x, nth_error t k = Some x /\ (e_par x' = e_par x \/ e_par x' = None) /\
+            ((e_fr x' = e_fr x /\ e_cnt x' <= e_cnt x) \/
+             (e_fr x' = 0 /\ ((i + k)%nat = w \/ (0 < e_cnt x /\ e_cnt x - 1 + e_fr x = 0)))).
+Proof.
+  induction t as [|y t IH]; intros i w doomed k x' H; [destruct k; discriminate|]. cbn [edestroy_pass] in H.
+  assert (Hrec : forall d z, nth_error (z :: edestroy_pass t (S i) w d) k = Some x' ->
+            (k = O -> z = x' -> exists x, nth_error (y :: t) k = Some x /\ (e_par x' = e_par x \/ e_par x' = None) /\
+                      ((e_fr x' = e_fr x /\ e_cnt x' <= e_cnt x) \/ (e_fr x' = 0 /\ ((i + k)%nat = w \/ (0 < e_cnt x /\ e_cnt x - 1 + e_fr x = 0))))) ->
+            exists x, nth_error (y :: t) k = Some x /\ (e_par x' = e_par x \/ e_par x' = None) /\
+                      ((e_fr x' = e_fr x /\ e_cnt x' <= e_cnt x) \/ (e_fr x' = 0 /\ ((i + k)%nat = w \/ (0 < e_cnt x /\ e_cnt x - 1 + e_fr x = 0))))).
+  { intros d z Hz H0. destruct k as [|k]; cbn in Hz.
+    - inversion Hz. apply H0; auto.
+    - destruct (IH (S i) w d k x' Hz) as (x & Hx & Hp & Hf). exists x. split; [exact Hx|]. split; [exact Hp|].
+      rewrite <- Nat.add_succ_comm. exact Hf. }
+  destruct (Nat.eqb i w) eqn:Eiw.
+  - apply (Hrec _ _ H). intros -> <-. exists y. split; [reflexivity|]. cbn. split; [right; reflexivity|].
+    right. split; [reflexivity|]. left. apply Nat.eqb_eq in Eiw. lia.
+  - destruct (e_par y) as [p|] eqn:Ep.
+    + destruct (existsb (Nat.eqb p) doomed && (0 <? e_cnt y)) eqn:Ec.
+      * apply andb_prop in Ec. destruct Ec as [_ Ec]. apply Z.ltb_lt in Ec.
+        destruct (e_cnt y - 1 + e_fr y =? 0) eqn:Ez.
+        -- apply (Hrec _ _ H). intros -> <-. exists y. split; [reflexivity|]. cbn. split; [right; reflexivity|].
+           right. split; [reflexivity|]. right. apply Z.eqb_eq in Ez. split; assumption.
+        -- apply (Hrec _ _ H). intros -> <-. exists y. split; [reflexivity|]. cbn. split; [right; reflexivity|].
+           left. split; [reflexivity|lia].
+      * apply (Hrec _ _ H). intros -> <-. exists y. split; [reflexivity|]. split; [left; reflexivity|]. left. split; [reflexivity|lia].
+    + apply (Hrec _ _ H). intros -> <-. exists y. split; [reflexivity|]. split; [left; reflexivity|]. left. split; [reflexivity|lia].
+Qed.
